@@ -175,6 +175,8 @@ outer:
 	for i := range parts {
 		part := parts[i]
 		main, allParamsRaw, found := strings.Cut(part, ";")
+		// optional white space may precede the ";" (RFC 9110 §5.6.6)
+		main = textproto.TrimString(main)
 		q := maxQValue
 		params := make([]string, 0, 2)
 		if found {
